@@ -16,6 +16,7 @@ import (
 	"github.com/ipld/go-storethehash/store/primary"
 	mhprimary "github.com/ipld/go-storethehash/store/primary/multihash"
 	"github.com/ipld/go-storethehash/store/types"
+	"github.com/ipld/go-storethehash/store/verifhook"
 )
 
 /* An append-only log [`recordlist`]s.
@@ -174,6 +175,7 @@ func Open(ctx context.Context, path string, primary primary.PrimaryStorage, inde
 		if err = writeHeader(headerPath, header); err != nil {
 			return nil, err
 		}
+		verifhook.At("index.open.header_written")
 	} else {
 		existingHeader = true
 		if indexSizeBits == 0 {
@@ -234,10 +236,12 @@ func Open(ctx context.Context, path string, primary primary.PrimaryStorage, inde
 		return nil, ctx.Err()
 	}
 
+	verifhook.At("index.open.state_loaded")
 	file, err = openFileAppend(indexFileName(path, lastIndexNum))
 	if err != nil {
 		return nil, err
 	}
+	verifhook.At("index.open.file_opened")
 
 	fi, err := file.Stat()
 	if err != nil {
@@ -369,6 +373,7 @@ func scanIndexFile(ctx context.Context, basePath string, fileNum uint32, buckets
 				if e != nil {
 					log.Errorw("Error truncating file", "err", e, "file", indexPath)
 				}
+				verifhook.At("index.open.scan.truncated")
 				break
 			}
 			return err
@@ -397,6 +402,7 @@ func scanIndexFile(ctx context.Context, basePath string, fileNum uint32, buckets
 				if e != nil {
 					log.Errorw("Error truncating file", "err", e, "file", indexPath)
 				}
+				verifhook.At("index.open.scan.truncated")
 				break
 			}
 			return err
@@ -707,9 +713,11 @@ func (idx *Index) flushBucket(bucket BucketIndex, newData []byte) (types.Block, 
 		if err != nil {
 			return types.Block{}, 0, fmt.Errorf("cannot open new index file %s: %w", indexPath, err)
 		}
+		verifhook.At("index.flush.roll.new_opened")
 		if err = idx.writer.Flush(); err != nil {
 			return types.Block{}, 0, fmt.Errorf("cannot write to index file %s: %w", idx.file.Name(), err)
 		}
+		verifhook.At("index.flush.roll.old_flushed")
 		idx.file.Close()
 		idx.writer.Reset(file)
 		idx.file = file
@@ -826,6 +834,7 @@ func (idx *Index) Get(key []byte) (types.Block, bool, error) {
 	if err != nil {
 		return types.Block{}, false, fmt.Errorf("error reading bucket: %w", err)
 	}
+	verifhook.At("index.get.info_read")
 	var records RecordList
 	if cached != nil {
 		records = NewRecordListRaw(cached)
@@ -867,6 +876,7 @@ func (idx *Index) Flush() (types.Work, error) {
 	idx.nextPool = make(bucketPool, bucketPoolSize)
 	idx.outstandingWork = 0
 	idx.bucketLk.Unlock()
+	verifhook.At("index.flush.swapped")
 
 	blks := make([]bucketBlock, 0, len(idx.curPool))
 	var work types.Work
@@ -882,8 +892,10 @@ func (idx *Index) Flush() (types.Work, error) {
 	if err != nil {
 		return 0, fmt.Errorf("cannot flush data to index file %s: %w", idx.file.Name(), err)
 	}
+	verifhook.At("index.flush.written")
 	idx.bucketLk.Lock()
 	defer idx.bucketLk.Unlock()
+	defer verifhook.At("index.flush.buckets_updated")
 	for _, blk := range blks {
 		if err = idx.buckets.Put(blk.bucket, blk.blk.Offset); err != nil {
 			return 0, fmt.Errorf("error commiting bucket: %w", err)
@@ -912,15 +924,18 @@ func (idx *Index) Close() error {
 			<-idx.gcDone
 			idx.gcStop = nil
 		}
+		verifhook.At("index.close.gc_stopped")
 		_, err = idx.Flush()
 		if err != nil {
 			idx.file.Close()
 			return
 		}
+		verifhook.At("index.close.flushed")
 		if err = idx.file.Close(); err != nil {
 			return
 		}
 		err = idx.saveBucketState()
+		verifhook.At("index.close.snapshot_saved")
 	})
 	return err
 }
@@ -933,6 +948,7 @@ func (idx *Index) saveBucketState() error {
 	if err != nil {
 		return err
 	}
+	verifhook.At("index.snapshot.tmp_created")
 	writer := bufio.NewWriterSize(file, indexBufferSize)
 	buf := make([]byte, types.OffBytesLen)
 
@@ -950,6 +966,7 @@ func (idx *Index) saveBucketState() error {
 	if err = file.Close(); err != nil {
 		return err
 	}
+	verifhook.At("index.snapshot.tmp_written")
 
 	// Only create the file after saving all buckets.
 	return os.Rename(bucketsFileNameTemp, bucketsFileName)
@@ -995,6 +1012,7 @@ func loadBucketState(ctx context.Context, basePath string, buckets Buckets, maxF
 		}
 		buckets[i] = types.Position(binary.LittleEndian.Uint64(buf))
 	}
+	verifhook.At("index.open.snapshot_read")
 
 	return nil
 }
@@ -1337,6 +1355,7 @@ func remapIndex(ctx context.Context, mp *mhprimary.MultihashPrimary, buckets Buc
 		if err != nil {
 			return nil, err
 		}
+		verifhook.At("remap.copied")
 
 		file, err := os.OpenFile(tmpName, os.O_RDWR, 0644)
 		if err != nil {
@@ -1397,6 +1416,7 @@ func remapIndex(ctx context.Context, mp *mhprimary.MultihashPrimary, buckets Buc
 		if err = file.Close(); err != nil {
 			log.Errorw("Error closing remapped index file", "err", err, "path", fileName)
 		}
+		verifhook.At("remap.rewritten")
 
 		// Create a ".remapped" file to indicate this file was remapped, and
 		// rename the temp file to the original index file name.
@@ -1407,10 +1427,12 @@ func remapIndex(ctx context.Context, mp *mhprimary.MultihashPrimary, buckets Buc
 		if err = doneFile.Close(); err != nil {
 			log.Errorw("Error closeing remapped file", "err", err, "file", doneName)
 		}
+		verifhook.At("remap.marker_created")
 
 		if err = os.Rename(tmpName, fileName); err != nil {
 			return nil, fmt.Errorf("error renaming remapped file %s to %s: %w", tmpName, fileName, err)
 		}
+		verifhook.At("remap.renamed")
 
 		fileCount++
 		log.Infof("Remapped index file %s: %.1f%% done", filepath.Base(fileName), float64(1000*indexCount/indexTotal)/10)
@@ -1421,6 +1443,7 @@ func remapIndex(ctx context.Context, mp *mhprimary.MultihashPrimary, buckets Buc
 	if err = writeHeader(headerPath, header); err != nil {
 		return nil, err
 	}
+	verifhook.At("remap.header_written")
 
 	// Remove the completion marker files.
 	for fileNum := range fileBuckets {
@@ -1492,6 +1515,7 @@ func MoveFiles(indexPath, newDir string) error {
 		if err = os.Rename(fileName, newPath); err != nil {
 			return err
 		}
+		verifhook.At("movefiles.file_moved")
 	}
 
 	headerPath := headerName(indexPath)
@@ -1499,6 +1523,7 @@ func MoveFiles(indexPath, newDir string) error {
 	if err = os.Rename(headerPath, newPath); err != nil {
 		return err
 	}
+	verifhook.At("movefiles.header_moved")
 
 	bucketsPath := savedBucketsName(indexPath)
 	_, err = os.Stat(bucketsPath)
